@@ -264,8 +264,27 @@ type msmCase struct {
 	Pads []int    `json:"pads"`
 }
 
+// c04Prev keeps the previous message's description and decoded result: decoding the
+// next message must not change it.
+var c04Prev struct {
+	m  *ref.MSM
+	d  *decoded
+	cj []byte
+}
+
 func execC04(c *child.Ctx, k msmCase, cj []byte) {
 	msm7 := ref.IsMSM7(k.M.Type)
+	prev := c04Prev
+	defer func() {
+		// by now this message has been decoded several times: the previous message's
+		// decoded result must still match its encoding
+		if prev.m != nil && prev.d != nil {
+			if why := compareMSM(prev.m, prev.d); why != "" {
+				c.Violate("decoded-result-changed-later", "a decoded message no longer matches its encoding after the next message was decoded: "+why, prev.cj)
+			}
+			c.Count("earlier_results_rechecked", 1)
+		}
+	}()
 	for _, pad := range k.Pads {
 		m := *k.M
 		m.PadBytes = pad
@@ -296,6 +315,8 @@ func execC04(c *child.Ctx, k msmCase, cj []byte) {
 			c.Violate("decode-mismatch", fmt.Sprintf("type %d, %d padding bytes, handler.Analyse: %s", m.Type, pad, why), cj)
 			return
 		}
+		mm := m
+		c04Prev.m, c04Prev.d, c04Prev.cj = &mm, direct, cj
 		c.Count("decodes_compared", 2)
 		c.Count("cells_compared", int64(2*len(m.Sigs)))
 	}
